@@ -73,6 +73,21 @@ Qed.
    last clause) and records outside the planned destinations are untouched (copy_apply_shares) *)
 
 (* ---- 4. the source need not be in the workspace ------------------------------------------------------------------------ *)
+(* the command as the histories run it ([do_xitem]: [move_cmd45] = the pre-check of the P45 fix, then
+   [move_cmd]): a source that would be REMOVED rather than renamed and has no cache object under the name
+   the destination is rechecked from (a file tracked with --no-commit) makes the command stop with the
+   repository unchanged; in every other case the command IS [move_cmd], which the theorems above and below
+   describe *)
+Theorem move_uncommitted_refused fl o src dst r l :
+  fixed_P45 fl = true -> move_plan src dst r = MPlanned l -> move_uncommitted o r l = true ->
+  move_cmd45 fl o src dst r = (r, Err).
+Proof. exact (move_uncommitted_refused_lemma fl o src dst r l). Qed.
+
+Theorem move_is_move_otherwise fl o src dst r :
+  (fixed_P45 fl = false \/ forall l, move_plan src dst r = MPlanned l -> move_uncommitted o r l = false) ->
+  move_cmd45 fl o src dst r = move_cmd fl o src dst r.
+Proof. exact (move_cmd45_is_move_lemma fl o src dst r). Qed.
+
 Theorem absent_source_ok o src dst r e x dg c :
   wf_fs (xfs r) -> wf_recs (base r) ->
   sources r src = [(e, x)] -> ends_slash dst = false -> stored r dst = false ->
@@ -243,3 +258,5 @@ Print Assumptions absent_source_ok_reachable.
 Print Assumptions reachable_by_clean_runs.
 Print Assumptions cross_ext_refuted.
 Print Assumptions move_absent_refuted.
+Print Assumptions move_uncommitted_refused.
+Print Assumptions move_is_move_otherwise.
